@@ -1007,7 +1007,9 @@ theorem handleConnack_pres (e : Engine) (c : Connack) : Pres e (e.handleConnack 
     · exact Pres.of_core_eq rfl
     · split
       · exact Pres.refl _
-      · let e1 : Engine := { e with state := .connected, hasConnected := true, settings := some (e.buildSettings c), connackDeadline := none, outRes := e.outRes.reset (c.topicAliasMaximum.getD 0), inRes := e.inRes.reset, pingDeadline := none, nextPing := (if (e.buildSettings c).serverKeepAlive > 0 then some (e.now + (e.buildSettings c).serverKeepAlive * 1000) else none) }
+      · split
+        · exact Pres.refl _
+        let e1 : Engine := { e with state := .connected, hasConnected := true, settings := some (e.buildSettings c), connackDeadline := none, outRes := e.outRes.reset (c.topicAliasMaximum.getD 0), inRes := e.inRes.reset, pingDeadline := none, nextPing := (if (e.buildSettings c).serverKeepAlive > 0 then some (e.now + (e.buildSettings c).serverKeepAlive * 1000) else none) }
         have h2 : Pres e e1.initSlowStart := by
           intro hok
           unfold Engine.initSlowStart
